@@ -264,7 +264,7 @@ harness!(#[kani::stub(alloc::fmt::format, stub_format)] merge_3x2_k3, 32, |t| { 
 
 /// Three children: the merged stream contains every input entry exactly once, in order
 /// (C05: a merge conserves the multiset), walked forward and backward.
-fn merge3_conserves<const A: usize, const B: usize, const C: usize, const T: usize>(t: &[u8]) {
+fn merge3_conserves<const A: usize, const B: usize, const C: usize, const T: usize>(t: &[u8], backward: bool) {
     let mut t = Tape::new(t);
     let a: [E; 2] = table(&mut t, A);
     let b: [E; 2] = table(&mut t, B);
@@ -278,6 +278,25 @@ fn merge3_conserves<const A: usize, const B: usize, const C: usize, const T: usi
         ArrCursor::<2>::new(c, C),
     ])
     .unwrap();
+    // the definition: the 3-way sorted union
+    let ab: [E; 4] = union(&a, A, &b, B);
+    let want: [E; T] = union(&ab, A + B, &c, C);
+    vcover!(a[0].k[0] == b[0].k[0] && b[0].k[0] == c[0].k[0], "one key in all three children");
+    vcover!(a[0].tomb && !b[0].tomb, "tombstone and value mixed");
+    if backward {
+        m.seek_to_last().unwrap();
+        let mut n = T;
+        while n > 0 {
+            n -= 1;
+            m.prev().unwrap();
+            let e = want[n];
+            assert!(obs_of(&m) == Some((e.k[0], e.t, if e.tomb { None } else { Some(e.v[0]) })), "backward walk yields the sorted union in reverse, each entry once");
+        }
+        m.prev().unwrap();
+        assert!(obs_of(&m).is_none(), "backward walk ends");
+        core::mem::forget(m);
+        return;
+    }
     // forward
     m.seek_to_first().unwrap();
     let mut out = [E0; T];
@@ -318,24 +337,18 @@ fn merge3_conserves<const A: usize, const B: usize, const C: usize, const T: usi
         assert!(f, "entry of child 2 present in merged stream");
         i += 1;
     }
-    // backward: the same entries in reverse
-    m.seek_to_last().unwrap();
-    let mut n = T;
-    while n > 0 {
-        n -= 1;
-        m.prev().unwrap();
-        let e = out[n];
-        assert!(obs_of(&m) == Some((e.k[0], e.t, if e.tomb { None } else { Some(e.v[0]) })), "backward walk mirrors forward walk");
+    let mut i = 0;
+    while i < T {
+        assert!(out[i] == want[i], "forward walk yields the sorted union");
+        i += 1;
     }
-    m.prev().unwrap();
-    assert!(obs_of(&m).is_none(), "backward walk ends");
-    vcover!(a[0].k[0] == b[0].k[0] && b[0].k[0] == c[0].k[0], "one key in all three children");
-    vcover!(a[0].tomb && !b[0].tomb, "tombstone and value mixed");
     core::mem::forget(m);
 }
-harness!(#[kani::stub(alloc::fmt::format, stub_format)] merge3_conserve_111, 32, |t| { merge3_conserves::<1, 1, 1, 3>(t) });
-harness!(#[kani::stub(alloc::fmt::format, stub_format)] merge3_conserve_211, 32, |t| { merge3_conserves::<2, 1, 1, 4>(t) });
-harness!(#[kani::stub(alloc::fmt::format, stub_format)] merge3_conserve_221, 32, |t| { merge3_conserves::<2, 2, 1, 5>(t) });
+harness!(#[kani::stub(alloc::fmt::format, stub_format)] merge3_conserve_111, 32, |t| { merge3_conserves::<1, 1, 1, 3>(t, false) });
+harness!(#[kani::stub(alloc::fmt::format, stub_format)] merge3_conserve_211, 32, |t| { merge3_conserves::<2, 1, 1, 4>(t, false) });
+harness!(#[kani::stub(alloc::fmt::format, stub_format)] merge3_backward_111, 32, |t| { merge3_conserves::<1, 1, 1, 3>(t, true) });
+harness!(#[kani::stub(alloc::fmt::format, stub_format)] merge3_backward_211, 32, |t| { merge3_conserves::<2, 1, 1, 4>(t, true) });
+harness!(#[kani::stub(alloc::fmt::format, stub_format)] merge3_conserve_221, 32, |t| { merge3_conserves::<2, 2, 1, 5>(t, false) });
 
 // ------------------------------------------------------------------ concatenating
 
@@ -572,6 +585,9 @@ harness!(#[kani::stub(alloc::fmt::format, stub_format)] prune_2_spn, 32, |t| { p
 harness!(#[kani::stub(alloc::fmt::format, stub_format)] prune_2_lp, 32, |t| { pruning::<2, 2>(t, Some([1, 4])) });
 harness!(#[kani::stub(alloc::fmt::format, stub_format)] prune_2_sp, 32, |t| { pruning::<2, 2>(t, Some([2, 4])) });
 
+harness!(#[kani::stub(alloc::fmt::format, stub_format)] composed2_ie_sn, 32, |t| { composed::<2, 1, 2>(t, Some([2, 3])) });
+harness!(#[kani::stub(alloc::fmt::format, stub_format)] composed2_uu_fnn, 32, |t| { composed::<3, 0, 0>(t, Some([0, 3, 3])) });
+
 harness_list!(
-    prune_2_lp, prune_2_sp, prune_3_s, prune_3_sn, prune_3_fnn, prune_3_lp, prune_3_sp, prune_2_lpp, prune_2_spn, merge_2x2_k3, merge_2x2_k4, merge_2x2_k5, merge_3x1_k3, merge_2x0_k3, merge_0x2_k3, merge_3x2_k3, merge3_conserve_111, merge3_conserve_211, merge3_conserve_221, bounds_3_k3_uu, bounds_3_k3_ui, bounds_3_k3_ue, bounds_3_k3_iu, bounds_3_k3_ii, bounds_3_k3_ie, bounds_3_k3_eu, bounds_3_k3_ei, bounds_3_k3_ee, bounds_4_k4_ie, bounds_4_k4_ei, concat_2x2_snn, concat_2x2_lpp, concat_2x2_spn, concat_2x2_fnp, concat_2x2_snp, concat_2x2_sps, concat_0x2_snn, concat_2x0_snn, concat3_empty_middle_snn, concat_0x2_lpp, concat_2x0_lpp, concat3_empty_middle_lpp, concat_0x2_spn, concat_2x0_spn, concat3_empty_middle_spn, prune_3_snn, prune_3_lpp, prune_3_spn, prune_3_fnp, prune_3_snp, prune_3_sps, prune_4_snn, prune_4_lpp, prune_4_spn, composed_ie_snp, composed_uu_snp, composed_ie_fnp, composed_uu_fnp, composed_ie_lpp, composed_uu_lpp,
+    composed2_ie_sn, composed2_uu_fnn, prune_2_lp, prune_2_sp, prune_3_s, prune_3_sn, prune_3_fnn, prune_3_lp, prune_3_sp, prune_2_lpp, prune_2_spn, merge_2x2_k3, merge_2x2_k4, merge_2x2_k5, merge_3x1_k3, merge_2x0_k3, merge_0x2_k3, merge_3x2_k3, merge3_conserve_111, merge3_conserve_211, merge3_conserve_221, merge3_backward_111, merge3_backward_211, bounds_3_k3_uu, bounds_3_k3_ui, bounds_3_k3_ue, bounds_3_k3_iu, bounds_3_k3_ii, bounds_3_k3_ie, bounds_3_k3_eu, bounds_3_k3_ei, bounds_3_k3_ee, bounds_4_k4_ie, bounds_4_k4_ei, concat_2x2_snn, concat_2x2_lpp, concat_2x2_spn, concat_2x2_fnp, concat_2x2_snp, concat_2x2_sps, concat_0x2_snn, concat_2x0_snn, concat3_empty_middle_snn, concat_0x2_lpp, concat_2x0_lpp, concat3_empty_middle_lpp, concat_0x2_spn, concat_2x0_spn, concat3_empty_middle_spn, prune_3_snn, prune_3_lpp, prune_3_spn, prune_3_fnp, prune_3_snp, prune_3_sps, prune_4_snn, prune_4_lpp, prune_4_spn, composed_ie_snp, composed_uu_snp, composed_ie_fnp, composed_uu_fnp, composed_ie_lpp, composed_uu_lpp,
 );
